@@ -230,6 +230,22 @@ pub fn option_tuples(r: &mut Rng, extra: usize) -> Vec<Options> {
     v
 }
 
+/// the characters Chars.tla knows (generated table next to the specification)
+fn known_chars() -> &'static std::collections::HashSet<char> {
+    static SET: std::sync::OnceLock<std::collections::HashSet<char>> = std::sync::OnceLock::new();
+    SET.get_or_init(|| {
+        let path = concat!(env!("CARGO_MANIFEST_DIR"), "/../spec/chars_table.json");
+        let v: Value = serde_json::from_str(&std::fs::read_to_string(path).expect("spec/chars_table.json")).expect("json");
+        v.as_array().unwrap().iter().filter_map(|r| r["c"].as_str().and_then(|s| s.chars().next())).collect()
+    })
+}
+
+/// all element and attribute names of the tree consist of characters of the model alphabet
+pub fn in_alphabet(v: &View) -> bool {
+    let ok = |s: &str| s.chars().all(|c| known_chars().contains(&c));
+    ok(&v.name) && v.attributes.iter().all(|(_, a)| ok(a)) && v.children.iter().all(|(_, c)| in_alphabet(c))
+}
+
 pub fn render_event(e: &Element<String>, opts: &[Options], extra: Value) -> Value {
     let mut ev = json!({"ev": "Render", "tree": view_chars(&e.verif_view()),
                         "renders": opts.iter().map(|o| render_record(e, o)).collect::<Vec<_>>()});
